@@ -175,6 +175,8 @@ def _prim_fields(min_size: int, max_size: int, prefix: str) -> st.SearchStrategy
         st.tuples(gt.primitive(), st.integers(1, 4)).map(lambda x: ["var", x[0], x[1]]),
         st.tuples(gt.primitive(), st.integers(1, 3)).map(lambda x: ["fixed", x[0], x[1]]),
         st.integers(1, 5).map(lambda c: ["var", ["utf8"], c]),
+        st.integers(1, 6).map(lambda c: ["fixed", ["byte"], c]),
+        st.integers(1, 6).map(lambda c: ["var", ["byte"], c]),
         st.just(["struct", [["q", ["uint", 3, "sat"]], ["r", ["var", ["bool"], 3]]]]),
         st.just(["union", [["q", ["uint", 3, "sat"]], ["r", ["float", 16, "sat"]]]]),
         st.just(["delim", ["struct", [["q", ["int", 9]]]], 1]),
